@@ -71,7 +71,7 @@ Theorem create_groups_partition :
   forall (Sc : Type) (es : list (entry Sc)),
     Permutation (concat (map snd (create_groups Sc es))) es /\
     Forall (fun g => Forall (fun e => e_dim Sc e = fst g) (snd g)) (create_groups Sc es).
-Proof. intros Sc es. exact (conj (create_groups_perm Sc es) (create_groups_ok Sc es)). Qed.
+Proof. exact create_groups_partition_lemma. Qed.
 Print Assumptions create_groups_partition.
 
 (* Exact arithmetic (Q), ORIGINAL phase 1, non-negative scores: the invariant "running total =
